@@ -59,6 +59,9 @@ def handleScheme : List String → Option String
       | .kerr e => s!"kerr {e.type} {e.num} {toHex e.str}"
       | .internal w => "internal " ++ w
       | .panic => "panic")
+  | ["cache-facts", alias, ptrKeys] =>
+    -- the protocol theorems of C08/C18 assume: getTypeInfo returns a private copy, entries are keyed by the dereferenced type
+    some (if alias == "false" && ptrKeys == "false" then "protocol-ok" else "protocol-violated")
   | _ => none
 
 end GoCrypt.Driver
